@@ -122,3 +122,45 @@ Definition optimize (g : grammar) : grammar :=
                   | RBody b => if nth (fst p) reached false then RBody (opt T b) else RBody b
                   | rb => rb
                   end) (combine (seq 0 (length g)) g).
+
+(** * executable side conditions of the soundness theorems (Proofs/FirstSound.v, Proofs/OptSound.v) *)
+
+(** characters and ranges in the grammar are code points in order *)
+Fixpoint ranges_ok (e : expr) : bool :=
+  match e with
+  | EChar c => 0 <=? c
+  | ERange lo hi => (0 <=? lo) && (lo <=? hi)
+  | ESeq es | EAlt es => forallb ranges_ok es
+  | EAnd e1 | ENot e1 | EQuery e1 | EStar e1 | EPlus e1 | EPush e1 => ranges_ok e1
+  | ESwitch _ _ => false          (* the analysis runs on trees without switch nodes *)
+  | _ => true
+  end.
+
+(** the representation invariant of the set package, as a test *)
+Fixpoint inv_b (lo : Z) (l : iset) : bool :=
+  match l with
+  | [] => true
+  | (b, e) :: l' => (lo <=? b) && (b <=? e) && inv_b (e + 2) l'
+  end.
+
+(** subset test through the package's own operations *)
+Definition subset_b (s t : iset) : bool := equal (union t s) t.
+
+(** the table T is consistent with rule r: a post-fixed point of the analysis, no least-ness needed *)
+Definition rule_t_ok (T : list fsres) (r : nat) (rb : rbody) : bool :=
+  match rb with
+  | RBody b => ranges_ok b && implb (fst (tget T r)) (fst (fs T b)) && subset_b (snd (fs T b)) (snd (tget T r))
+  | RAct _ => negb (fst (tget T r))
+  | RNil => true
+  end.
+
+Definition t_ok_b (g : grammar) (T : list fsres) : bool :=
+  forallb (fun s => inv_b 0 (snd s)) T &&
+  forallb (fun p => rule_t_ok T (fst p) (snd p)) (combine (seq 0 (length g)) g).
+
+(** side condition on the analysis result, evaluated per grammar: the iteration reached a fixed point
+    and the table is consistent with the grammar *)
+Definition opt_ok_b (g : grammar) : bool := let '(T, stable) := fs_table g in stable && t_ok_b g T.
+
+(** what []rune(string) yields *)
+Definition valid_buf_b (buf : list Z) : bool := forallb valid_rune buf.
